@@ -259,7 +259,9 @@ def check_pointless(stmt_src):
     except SyntaxError:
         return None
     try:
-        h = core.has_side_effect(node)
+        # with the whitelist the deleting rule really uses (the builtins and definitions it infers to be harmless), not the empty default
+        from pyrefact import parsing
+        h = core.has_side_effect(node, parsing.safe_callable_names(ast.parse(prog))) and core.has_side_effect(node)
     except Exception as ex:  # noqa: BLE001
         return {"cls": f"has_side_effect:raises:{type(ex).__name__}", "what": f"has_side_effect raised {type(ex).__name__}", "shape": stmt_src}
     if h:
